@@ -9,7 +9,8 @@ while the scripts of the C17 correspondence run.  A binding inactive in all
 states is left out.  Effect codes name the
 handlers the model (coq/Model/C17_Emacs.v) implements; every other handler is
 99 (98 when its source mentions exit()/validate_and_handle: it may end the
-prompt)."""
+prompt; 97 when it mentions feed(/feed_multiple(: it may put key presses into
+the processor)."""
 import inspect
 import sys
 
@@ -39,6 +40,8 @@ EFFECTS = {
     ("cpr", "load_cpr_bindings.<locals>._"): 19,
     ("gen_t_c17", "c17_extra_noop"): 12,
     ("basic", "load_basic_bindings.<locals>._newline2"): 20,     # C-j: feeds ControlM with first=True
+    ("named_commands", "operate_and_get_next"): 21,              # c-o: accepts the line
+    ("named_commands", "insert_comment"): 22,                    # ESC #: '#' in front of every line, then accepts
 }
 KEY_OFFSET = 1000       # a one-character key c is KEY_OFFSET + ord(c); a Keys member its index in list(Keys)
 
@@ -73,6 +76,8 @@ def effect_of(handler):
         return 98
     if ".exit(" in src or "validate_and_handle" in src or "exit(" in src:
         return 98
+    if ".feed(" in src or "feed_multiple(" in src:
+        return 97
     return 99
 
 
@@ -144,7 +149,7 @@ def t_C17_Bindings():
     if not (100 < len(rows) < 600):
         die("unexpected number of active bindings: %d" % len(rows))
     effs = [r[1] for r in rows]
-    for need in (1, 12, 13, 14, 15, 16, 17, 18, 19, 20):
+    for need in (1, 12, 13, 14, 15, 16, 17, 18, 19, 20, 21, 22):
         if need not in effs:
             die("no active binding with effect %d (the model's handler table no longer fits)" % need)
     for pats, eff, am, em, b in rows:
